@@ -343,7 +343,19 @@ def call_columns(ts, tname, cidx, fault, method):
         elif fault == "offset_huge":
             a[-1] = 2 ** 40
     cols[k] = a
-    getattr(t, method)(**cols)
+    before = t.copy()
+    try:
+        getattr(t, method)(**cols)
+    except Exception:
+        # a refused bulk assignment must leave a *usable* table behind (C09 does not ask for an unchanged one: set_columns clears
+        # first): read every row, copy, compare with the copy, append a row, sort the collection
+        rows = [r for r in t]
+        repr(rows)[:10]
+        if not t.copy().equals(t):
+            raise AssertionError("LATENT: %s.%s refused the columns and left a table that differs from its own copy" % (tname, method))
+        if len(before):
+            t.append(before[0])
+        raise
     # accepted: the table must be fully readable and self-consistent
     rows = [r for r in t]
     t2 = t.copy()
@@ -386,6 +398,8 @@ def run_programs(item):
             oc = "ok"
         except KeyError as e:
             oc = "raise:KeyError" if "not found" in str(e) or True else "nocase"
+        except AssertionError as e:          # raised by the harness's own post-conditions (the library raises no AssertionError)
+            oc = "latent:" + str(e)[:200]
         except BaseException as e:
             oc = "raise:" + type(e).__name__
         # no latent corruption: the same legal probe must give the same answer, also through the used Tree
@@ -547,6 +561,8 @@ def run():
                 chk.violation("call %s%s crashed / sanitizer report:\n%s" % (p["name"], p["args"], o[1]), dict(a=a, program=p), signature=sig)
             elif p["must_raise"] and o[0] == "ok":
                 chk.violation("out-of-range identifier accepted silently: %s%s returned normally" % (p["name"], p["args"]), dict(a=a, program=p))
+            elif o[0].startswith("latent:"):
+                chk.violation("after %s%s the object is not in the state the call's outcome implies: %s" % (p["name"], p["args"], o[0]), dict(a=a, program=p))
             elif o[0] == "uncallable":
                 uncallable.add(p["name"].split(":")[0])
             elif not o[1]:
